@@ -3,6 +3,7 @@
   Theorems on the exact cursor model (`Model/Cursor.lean`, checked arithmetic, u16 truncation).
 -/
 import PasfmtModel.Proofs.CursorProps
+import PasfmtModel.Proofs.CursorProps2
 import PasfmtModel.Model.Pipeline
 
 namespace Pasfmt.C15
@@ -56,5 +57,270 @@ theorem cursor_total_fails_F3 :
           fmt := { ignored := false, nl := 0, ind := 0, cont := 0, sp := 1 } } ]
       { tokIdx := 1, pos := .whitespace 5 0 } = none := by
   decide +kernel
+
+/-! ## Second batch: the input side, in-bounds, multi-line tokens
+
+  Sample used by the `example`s: input `foo ;⏎` (tokens `foo`, `;` with one leading space, end-of-file
+  with a leading line break), output `foo;⏎`. -/
+
+def exS : Settings := { nlStr := [10], indStr := [32, 32], contStr := [32, 32, 32, 32] }
+
+def exRaw : List RawTok :=
+  [ { ws := [], content := [102, 111, 111], kind := .rIdentifier },
+    { ws := [32], content := [59], kind := .rOp .oSemicolon },
+    { ws := [10], content := [], kind := .rEof } ]
+
+def exFt : FT :=
+  [ { tok := { ws := [], content := [102, 111, 111], kind := .tIdentifier },
+      fmt := { ignored := false, nl := 0, ind := 0, cont := 0, sp := 0 } },
+    { tok := { ws := [32], content := [59], kind := .tOp .oSemicolon },
+      fmt := { ignored := false, nl := 0, ind := 0, cont := 0, sp := 0 } },
+    { tok := { ws := [10], content := [], kind := .tEof },
+      fmt := { ignored := false, nl := 1, ind := 0, cont := 0, sp := 0 } } ]
+
+/-- Input side.  Let `t` be token `k` of the scanned input, not a multi-line comment or multi-line
+    string, and let the cursor be `o` bytes into the text of `t` (`o = |text|` means just behind
+    it), i.e. at absolute offset (length of tokens `0..k`) + (leading whitespace of `t`) + `o`.
+    Then `process_cursors` attaches it to token `k` at content offset `o`.
+    Excluded: `o ≥ 2^32` (the `as u32` cast), and the case `o = 0` with no whitespace in front of
+    `t` and `k > 0`: that position is also the end of the previous token, and the code attaches the
+    cursor to the first token whose range contains it (see `cursor_at_token_start_sticks`). -/
+theorem processCursor_in_token (raw : List RawTok) (k : Nat) (t : RawTok) (o : Nat)
+    (hk : raw[k]? = some t) (hm : isMultilineRawKind t.kind = false)
+    (ho : o ≤ t.content.length) (h32 : o < 4294967296)
+    (hfirst : 0 < o ∨ 0 < t.ws.length ∨ k = 0) :
+    processCursor raw (((raw.take k).map RawTok.strLen).sum + t.ws.length + o)
+      = { tokIdx := k, pos := .content o } :=
+  Pasfmt.processCursor_in_token raw k t o hk hm ho h32 hfirst
+
+/-- the cursor behind `;` in `foo ;⏎` (offset 5) is token 1, content offset 1 -/
+example : processCursor exRaw 5 = { tokIdx := 1, pos := .content 1 } :=
+  processCursor_in_token exRaw 1 { ws := [32], content := [59], kind := .rOp .oSemicolon } 1
+    rfl rfl (by decide) (by decide) (by decide)
+
+/-- What the code does in the case excluded above: a cursor exactly at the start of the text of
+    token `k+1`, when that token has no leading whitespace, is attached to token `k` (single-line,
+    and not an empty token unless `k = 0`) at the end of its text — the cursor "sticks" to the
+    previous token.  Excluded: a previous token of 4 GiB or more. -/
+theorem cursor_at_token_start_sticks (raw : List RawTok) (k : Nat) (t t' : RawTok)
+    (hk : raw[k]? = some t) (hk' : raw[k + 1]? = some t') (hws : t'.ws = [])
+    (hm : isMultilineRawKind t.kind = false) (h32 : t.content.length < 4294967296)
+    (hfirst : 0 < t.strLen ∨ k = 0) :
+    processCursor raw (((raw.take (k + 1)).map RawTok.strLen).sum + t'.ws.length + 0)
+      = { tokIdx := k, pos := .content t.content.length } :=
+  processCursor_at_token_start_sticks raw k t t' hk hk' hws hm h32 hfirst
+
+/-- in `a;` the cursor between `a` and `;` belongs to `a` -/
+example : processCursor [ { ws := [], content := [97], kind := .rIdentifier },
+                          { ws := [], content := [59], kind := .rOp .oSemicolon } ] 1
+    = { tokIdx := 0, pos := .content 1 } :=
+  cursor_at_token_start_sticks _ 0 { ws := [], content := [97], kind := .rIdentifier }
+    { ws := [], content := [59], kind := .rOp .oSemicolon } rfl rfl rfl rfl (by decide) (by decide)
+
+/-- Third clause of C15, end to end, for single-line tokens.  A cursor `o` bytes into the text of
+    input token `k` (same position conditions as `processCursor_in_token`), when token `k` of the
+    final token list still has the same text, is reported at `offset_for_token(k) + o`.
+    Excluded: multi-line comments/strings (see `cursor_in_unchanged_multiline_token`), the
+    sticking case `o = 0`, and outputs in which token `k` ends at or beyond 4 GiB. -/
+theorem cursor_in_unchanged_token (S : Settings) (raw : List RawTok) (ft : FT) (k o : Nat)
+    (t : RawTok) (t' : FTok)
+    (hk : raw[k]? = some t) (hk' : ft[k]? = some t') (hsame : t'.tok.content = t.content)
+    (hm : isMultilineRawKind t.kind = false) (ho : o ≤ t.content.length)
+    (hfirst : 0 < o ∨ 0 < t.ws.length ∨ k = 0)
+    (hsmall : offsetForToken S ft k + t.content.length < 4294967296) :
+    trackCursors S raw ft [((raw.take k).map RawTok.strLen).sum + t.ws.length + o]
+      = [some (offsetForToken S ft k + o)] := by
+  have hlen : t'.tok.content.length = t.content.length := by rw [hsame]
+  unfold trackCursors
+  simp only [List.map_cons, List.map_nil]
+  rw [Pasfmt.processCursor_in_token raw k t o hk hm ho (by omega) hfirst,
+      cursor_same_token S ft k o t' hk' (by omega) (by omega)]
+
+/-- `foo ;⏎` → `foo;⏎`: the cursor behind `;` moves from 5 to 4 -/
+example : trackCursors exS exRaw exFt [5] = [some 4] :=
+  cursor_in_unchanged_token exS exRaw exFt 1 1 { ws := [32], content := [59], kind := .rOp .oSemicolon }
+    { tok := { ws := [32], content := [59], kind := .tOp .oSemicolon },
+      fmt := { ignored := false, nl := 0, ind := 0, cont := 0, sp := 0 } }
+    rfl rfl rfl rfl (by decide) (by decide) (by decide)
+
+/-- The same with the true position: when moreover no safety-net newline was inserted, the output
+    is `A ++ text ++ B` with the text of token `k` starting at `|A|`, and the cursor is reported at
+    `|A| + o`: the same offset inside the same token. -/
+theorem cursor_in_unchanged_token_true (S : Settings) (raw : List RawTok) (ft : FT) (k o : Nat)
+    (t : RawTok) (t' : FTok)
+    (hk : raw[k]? = some t) (hk' : ft[k]? = some t') (hsame : t'.tok.content = t.content)
+    (hm : isMultilineRawKind t.kind = false) (ho : o ≤ t.content.length)
+    (hfirst : 0 < o ∨ 0 < t.ws.length ∨ k = 0)
+    (hsn : noSafetyNetGo false ft = true)
+    (hsmall : (reconstruct S ft).length < 4294967296) :
+    ∃ A B, reconstruct S ft = A ++ t.content ++ B ∧
+      trackCursors S raw ft [((raw.take k).map RawTok.strLen).sum + t.ws.length + o]
+        = [some (A.length + o)] := by
+  obtain ⟨A, B, hAB, hA⟩ := offset_for_token_true S ft k t' hk' hsn
+  have hle := offset_add_content_le S ft false k t' hk' hsn
+  refine ⟨A, B, by rw [hAB, hsame], ?_⟩
+  rw [hA]
+  exact cursor_in_unchanged_token S raw ft k o t t' hk hk' hsame hm ho hfirst
+    (by unfold reconstruct at hsmall; rw [← hsame]; omega)
+
+example : noSafetyNetGo false exFt = true ∧ (reconstruct exS exFt).length < 4294967296 := by decide
+
+/-- Second clause of C15 ("every reported cursor lies within the output"), strongest version that
+    holds on the model: for every internal cursor (all three position forms, any token index) and
+    every final token list (with or without safety-net newlines), the reported offset is at most
+    the length of the output.  No size bound is needed.  Excluded, because the statement is false
+    there:
+    * (`heof`) a token index beyond the list when the last token has non-empty text — cannot
+      happen in the code, the last token is the empty end-of-file token
+      (`cursor_in_bounds_fails_without_eof`);
+    * (`hign`) a cursor in the leading whitespace of an *ignored* token whose newline counter
+      times the length of the configured line ending exceeds the length of that whitespace, e.g. a
+      `{pasfmt off}` region with bare `\n` line breaks formatted with `line_ending = crlf`
+      (`cursor_in_bounds_fails_ignored_crlf`, reproduced on the real binary).
+    Only the case `relocate = some r` is covered: `none` means an unsigned subtraction underflows
+    (`cursor_total_fails_F3`). -/
+theorem cursor_in_bounds_partial (S : Settings) (ft : FT) (ic : ICursor) (r : Nat)
+    (heof : ic.tokIdx < ft.length ∨ ∀ last, ft.getLast? = some last → last.tok.content = [])
+    (hign : ∀ t c n, ft[ic.tokIdx]? = some t → ic.pos = .whitespace c n → t.fmt.ignored = true →
+      S.nlStr.length * t.fmt.nl ≤ t.tok.ws.length)
+    (h : relocate S ft ic = some r) :
+    r ≤ (reconstruct S ft).length :=
+  relocate_in_bounds S ft ic r heof hign h
+
+/-- Corollary without a condition on the cursor: with the one-byte line ending (`\n`), a token
+    list ending in a token with empty text, and ignored tokens carrying the newline counter computed
+    from their whitespace (`FormattingData::from`, never changed for ignored tokens), *every*
+    reported cursor is within the output. -/
+theorem cursor_in_bounds_lf (S : Settings) (ft : FT) (ic : ICursor) (r : Nat)
+    (hS : S.nlStr.length = 1)
+    (heof : ∀ last, ft.getLast? = some last → last.tok.content = [])
+    (hfmt : ∀ t ∈ ft, t.fmt.ignored = true → t.fmt.nl = u16sat (countByte 0x0A t.tok.ws))
+    (h : relocate S ft ic = some r) :
+    r ≤ (reconstruct S ft).length := by
+  refine relocate_in_bounds S ft ic r (Or.inr heof) ?_ h
+  intro t c n hk _ hi
+  exact ignoredNlFits_ofWs_lf S t hS (hfmt t (List.mem_of_getElem? hk) hi) hi
+
+example : exS.nlStr.length = 1 ∧
+    (∀ last, exFt.getLast? = some last → last.tok.content = []) ∧
+    (∀ t ∈ exFt, t.fmt.ignored = true → t.fmt.nl = u16sat (countByte 0x0A t.tok.ws)) := by
+  refine ⟨rfl, ?_, by decide⟩
+  intro last h; simp [exFt] at h; subst h; rfl
+
+/-- `cursor_in_bounds_partial` is false without `hign`: input `{}` followed by three bare `\n`,
+    everything ignored, `line_ending = crlf`.  The output is the input, 5 bytes long; the cursor at
+    input offset 4 (behind the second `\n`) is reported at 6.  (`pasfmt -C line_ending=crlf
+    --cursor 14` on `{pasfmt off}\n\n\n` prints `CURSOR=16` for a 15-byte output.) -/
+theorem cursor_in_bounds_fails_ignored_crlf :
+    let S : Settings := { nlStr := [13, 10], indStr := [32, 32], contStr := [32, 32, 32, 32] }
+    let raw : List RawTok :=
+      [ { ws := [], content := [123, 125], kind := .rComment .cInlineBlock },
+        { ws := [10, 10, 10], content := [], kind := .rEof } ]
+    let ft : FT :=
+      [ { tok := { ws := [], content := [123, 125], kind := .tComment .cInlineBlock },
+          fmt := FmtData.ofWs [] true },
+        { tok := { ws := [10, 10, 10], content := [], kind := .tEof },
+          fmt := FmtData.ofWs [10, 10, 10] true } ]
+    noSafetyNetGo false ft = true ∧ (reconstruct S ft).length = 5 ∧
+      trackCursors S raw ft [4] = [some 6] := by
+  decide +kernel
+
+/-- `cursor_in_bounds_partial` is false without `heof`: a token index beyond a list whose last
+    token has text is reported at (length of the output) + (length of that text).  Not reachable
+    from the code, where the last token is the empty end-of-file token. -/
+theorem cursor_in_bounds_fails_without_eof :
+    let S : Settings := { nlStr := [10], indStr := [32, 32], contStr := [32, 32, 32, 32] }
+    let ft : FT :=
+      [ { tok := { ws := [], content := [97, 98], kind := .tIdentifier },
+          fmt := { ignored := false, nl := 0, ind := 0, cont := 0, sp := 0 } } ]
+    noSafetyNetGo false ft = true ∧ (reconstruct S ft).length = 2 ∧
+      relocate S ft { tokIdx := 1, pos := .content 0 } = some 4 := by
+  decide +kernel
+
+/-- A cursor that was in the whitespace in front of token `idx` is reported inside the new gap in
+    front of token `idx`: not behind the start of the token's text, and at most the length of the
+    gap before it.  Excluded: ignored tokens violating the `hign` condition above, and outputs in
+    which the token starts at or beyond 4 GiB. -/
+theorem cursor_whitespace_in_gap (S : Settings) (ft : FT) (idx c n : Nat) (t : FTok) (r : Nat)
+    (hk : ft[idx]? = some t)
+    (hfit : t.fmt.ignored = true → S.nlStr.length * t.fmt.nl ≤ t.tok.ws.length)
+    (hsmall : offsetForToken S ft idx < 4294967296)
+    (h : relocate S ft { tokIdx := idx, pos := .whitespace c n } = some r) :
+    r ≤ offsetForToken S ft idx ∧ offsetForToken S ft idx ≤ r + wsLen S t :=
+  relocate_whitespace_in_gap S ft idx c n t r hk hfit hsmall h
+
+/-- the cursor in the space of `foo ;⏎` (internal form: column 3, no break behind it) is reported
+    at 3 in `foo;⏎`, where the gap in front of `;` is empty -/
+example : relocate exS exFt { tokIdx := 1, pos := .whitespace 3 0 } = some 3 := by decide +kernel
+
+/-- Third clause of C15 for multi-line comments and multi-line strings.  A cursor `o` bytes into
+    the text of the multi-line input token `k`, when token `k` of the final token list still has
+    the same text, is reported at `offset_for_token(k) + o`.
+    Excluded: the rest of the cursor's line inside the token is 65536 bytes or longer, or 65536 or
+    more line breaks of the token follow the cursor (both are cast to `u16`); the sticking case
+    `o = 0` without leading whitespace and `k > 0`; outputs in which the token ends at or beyond
+    4 GiB. -/
+theorem cursor_in_unchanged_multiline_token (S : Settings) (raw : List RawTok) (ft : FT) (k o : Nat)
+    (t : RawTok) (t' : FTok)
+    (hk : raw[k]? = some t) (hk' : ft[k]? = some t') (hsame : t'.tok.content = t.content)
+    (hm : isMultilineRawKind t.kind = true) (ho : o ≤ t.content.length)
+    (hfirst : 0 < o ∨ 0 < t.ws.length ∨ k = 0)
+    (hcol : firstLen (t.content.drop o) < 65536) (hnl : countByte 0x0A (t.content.drop o) < 65536)
+    (hsmall : offsetForToken S ft k + t.content.length < 4294967296) :
+    trackCursors S raw ft [((raw.take k).map RawTok.strLen).sum + t.ws.length + o]
+      = [some (offsetForToken S ft k + o)] := by
+  have hlen : t'.tok.content.length = t.content.length := by rw [hsame]
+  unfold trackCursors
+  simp only [List.map_cons, List.map_nil]
+  rw [processCursor_in_multiline_token raw k t o hk hm ho hfirst hcol hnl, ← hsame,
+      relocate_multiline_same S ft k o t' hk' (by omega) (by omega)]
+
+/-- sufficient for `hcol` and `hnl`: the token is shorter than 65536 bytes -/
+theorem multiline_small (c : Bytes) (o : Nat) (h : c.length < 65536) :
+    firstLen (c.drop o) < 65536 ∧ countByte 0x0A (c.drop o) < 65536 := by
+  have h1 : firstLen (c.drop o) ≤ (c.drop o).length := by
+    have := lastPiecesLen_drop c o; omega
+  have h2 := countByte_le_length 0x0A (c.drop o)
+  have h3 : (c.drop o).length ≤ c.length := by simp
+  omega
+
+/-- The same with the true position (no safety-net newline inserted): the output is
+    `A ++ text ++ B` and the cursor is reported at `|A| + o`. -/
+theorem cursor_in_unchanged_multiline_token_true (S : Settings) (raw : List RawTok) (ft : FT)
+    (k o : Nat) (t : RawTok) (t' : FTok)
+    (hk : raw[k]? = some t) (hk' : ft[k]? = some t') (hsame : t'.tok.content = t.content)
+    (hm : isMultilineRawKind t.kind = true) (ho : o ≤ t.content.length)
+    (hfirst : 0 < o ∨ 0 < t.ws.length ∨ k = 0)
+    (hcol : firstLen (t.content.drop o) < 65536) (hnl : countByte 0x0A (t.content.drop o) < 65536)
+    (hsn : noSafetyNetGo false ft = true)
+    (hsmall : (reconstruct S ft).length < 4294967296) :
+    ∃ A B, reconstruct S ft = A ++ t.content ++ B ∧
+      trackCursors S raw ft [((raw.take k).map RawTok.strLen).sum + t.ws.length + o]
+        = [some (A.length + o)] := by
+  obtain ⟨A, B, hAB, hA⟩ := offset_for_token_true S ft k t' hk' hsn
+  have hle := offset_add_content_le S ft false k t' hk' hsn
+  refine ⟨A, B, by rw [hAB, hsame], ?_⟩
+  rw [hA]
+  exact cursor_in_unchanged_multiline_token S raw ft k o t t' hk hk' hsame hm ho hfirst hcol hnl
+    (by unfold reconstruct at hsmall; rw [← hsame]; omega)
+
+/-- `x {a⏎b}⏎` → `x {a⏎b}⏎`: the cursor behind `a` (offset 4 = 1 + 1 + 2) stays at 4 -/
+example :
+    trackCursors exS
+      [ { ws := [], content := [120], kind := .rIdentifier },
+        { ws := [32], content := [123, 97, 10, 98, 125], kind := .rComment .cMultilineBlock },
+        { ws := [10], content := [], kind := .rEof } ]
+      [ { tok := { ws := [], content := [120], kind := .tIdentifier },
+          fmt := { ignored := false, nl := 0, ind := 0, cont := 0, sp := 0 } },
+        { tok := { ws := [32], content := [123, 97, 10, 98, 125], kind := .tComment .cMultilineBlock },
+          fmt := { ignored := false, nl := 0, ind := 0, cont := 0, sp := 1 } },
+        { tok := { ws := [10], content := [], kind := .tEof },
+          fmt := { ignored := false, nl := 1, ind := 0, cont := 0, sp := 0 } } ]
+      [4] = [some 4] :=
+  cursor_in_unchanged_multiline_token exS _ _ 1 2
+    { ws := [32], content := [123, 97, 10, 98, 125], kind := .rComment .cMultilineBlock }
+    { tok := { ws := [32], content := [123, 97, 10, 98, 125], kind := .tComment .cMultilineBlock },
+      fmt := { ignored := false, nl := 0, ind := 0, cont := 0, sp := 1 } }
+    rfl rfl rfl rfl (by decide) (by decide) (by decide) (by decide) (by decide)
 
 end Pasfmt.C15
